@@ -102,6 +102,19 @@ func init() {
 		r.assert(r.intBinop(tokLOR, types.Typ[types.Bool], c, trig).(Int), id, "", fr.caller)
 		return nil
 	}
+	// KnownFaultRegion(trigger, key): while trigger holds and key is listed as a known finding, a fault,
+	// crash or non-termination of the code under test is attributed to that finding (path dropped,
+	// counted as a reproduction) instead of being reported. KnownFaultRegion(false, "") ends the region.
+	I[zz+"KnownFaultRegion"] = func(fr *frame, fn *ssa.Function, args []Value) Value {
+		r := fr.r
+		trig := args[0].(Int)
+		key := argStr(args[1])
+		r.knownFaultKey = ""
+		if key != "" && r.job.Known[key] && trig.N == nil && trig.C != 0 {
+			r.knownFaultKey = key
+		}
+		return nil
+	}
 	I[zz+"Reach"] = func(fr *frame, fn *ssa.Function, args []Value) Value {
 		fr.r.reach[argStr(args[0])]++
 		return nil
@@ -171,6 +184,11 @@ func init() {
 	I[zz+"StubClear"] = func(fr *frame, fn *ssa.Function, args []Value) Value {
 		fr.r.stubs = nil
 		return nil
+	}
+	// Concretize64(v): forks over every feasible value of v (decided by the solver) and returns it concrete.
+	I[zz+"Concretize64"] = func(fr *frame, fn *ssa.Function, args []Value) Value {
+		v := args[0].(Int)
+		return mkInt(64, fr.r.concretize(v, "harness"))
 	}
 	I[zz+"MutexHeld"] = func(fr *frame, fn *ssa.Function, args []Value) Value {
 		p := args[0].(Ptr)
